@@ -1283,6 +1283,7 @@ def prove(label: str, cond, *, when=None):
     if r == "unsat":
         c.atoms_proved += 1
         c.path_nontrivial = True
+        _maybe_dump(c, extra, label, "unsat")
         return
     if r == "unknown":
         raise _Inconclusive(label)
@@ -1292,6 +1293,31 @@ def prove(label: str, cond, *, when=None):
 def fail(label: str):
     """Unconditional violation on this path (e.g. an unexpected exception)."""
     prove(label, False)
+
+
+XCHECK = {"dir": None, "rate": 0.0, "max": 0, "n": 0, "rng": None, "tag": ""}
+
+
+def _maybe_dump(c: Ctx, extra, label, expected):
+    """second-solver cross-check (thorough tier): a seeded sample of the discharged atom queries is
+    written as SMT-LIB2 (path condition + negated atom) to be re-decided by other solvers"""
+    x = XCHECK
+    if not x["dir"] or x["n"] >= x["max"]:
+        return
+    if x["rng"].random() >= x["rate"]:
+        return
+    s2 = z3.Solver()
+    for p in c.pc:
+        s2.add(p)
+    for e in extra:
+        s2.add(e)
+    txt = s2.to_smt2()
+    if "FloatingPoint" in txt or "RoundingMode" in txt:
+        return  # FP queries are too slow for the other back ends here
+    x["n"] += 1
+    fn = os.path.join(x["dir"], f"{x['tag']}_{x['n']}.smt2")
+    with open(fn, "w") as f:
+        f.write(f"; expected: {expected}\n; atom: {label[:100]}\n(set-logic ALL)\n" + txt.replace("(set-logic ALL)\n", ""))
 
 
 class _Inconclusive(BaseException):
@@ -1387,7 +1413,7 @@ def _nice_model(c: Ctx, extra):
     reals = [(n, v) for n, v in c.vars.items() if c.var_kinds[n] == "real"]
     if not reals:
         return None
-    for denom, bound in ((1024, 2**30), (2**20, 2**45)):
+    for denom, bound in ((8, 8 * 64), (1024, 1024 * 4096), (1024, 2**30), (2**20, 2**45)):
         cons = []
         for n, v in reals:
             k = z3.Int(f"_k_{n}")
